@@ -35,8 +35,11 @@ func expandAndEvaluate(expr []token, all map[string][]token, resolved map[string
 	// the number of unrelated definitions
 	symbols := make(map[string][]token)
 	var knownFailure error
-	var collect func(toks []token)
-	collect = func(toks []token) {
+	// collect gathers the symbols toks lead to that have no value yet. It
+	// returns the failure of a symbol that is known not to have one; the
+	// symbols that lead there cannot have one either, and are recorded too.
+	var collect func(toks []token) error
+	collect = func(toks []token) error {
 		for _, tok := range toks {
 			if tok.typ != tokText {
 				continue
@@ -48,20 +51,36 @@ func expandAndEvaluate(expr []token, all map[string][]token, resolved map[string
 				continue
 			}
 			if err, bad := failed[tok.val]; bad {
-				if knownFailure == nil {
-					knownFailure = err
-				}
+				return err
+			}
+			val, ok := all[tok.val]
+			if !ok {
 				continue
 			}
-			if val, ok := all[tok.val]; ok {
-				symbols[tok.val] = val
-				collect(val)
+			if len(val) > maxExpressionTokens {
+				err := fmt.Errorf("symbol '%s' expands to more than %d tokens", tok.val, maxExpressionTokens)
+				if failed != nil {
+					failed[tok.val] = err
+				}
+				return err
+			}
+			symbols[tok.val] = val
+			if err := collect(val); err != nil {
+				if failed != nil {
+					failed[tok.val] = err
+				}
+				delete(symbols, tok.val)
+				return err
 			}
 		}
+		return nil
 	}
-	collect(expr)
-	if knownFailure != nil {
-		return 0, knownFailure
+	for _, tok := range expr {
+		// one name of the expression at a time: what the others lead to can
+		// still be resolved, and is, so that it is not gathered again
+		if err := collect([]token{tok}); err != nil && knownFailure == nil {
+			knownFailure = err
+		}
 	}
 
 	graph := buildReferenceGraph(symbols)
@@ -74,6 +93,9 @@ func expandAndEvaluate(expr []token, all map[string][]token, resolved map[string
 	err := expandExpressionsInto(symbols, graph, resolved, failed)
 	if err != nil {
 		return 0, err
+	}
+	if knownFailure != nil {
+		return 0, knownFailure
 	}
 
 	expanded := make([]token, 0)
